@@ -1,13 +1,88 @@
 package codecfacts
 
 import (
+	"bytes"
 	"fmt"
 	"go/ast"
+	"go/printer"
+	"go/token"
+	"io/ioutil"
 	"path/filepath"
+	"sort"
 	"strings"
 
 	"verifharness/extract/ex"
 )
+
+// srcLines: the function's signature and body as gofmt prints them (comments dropped), one trimmed
+// non-empty line per element — the exact text a hand model transcribes
+func srcLines(fset *token.FileSet, fd *ast.FuncDecl) []string {
+	if fd == nil {
+		return nil
+	}
+	cp := *fd
+	cp.Doc = nil
+	var buf bytes.Buffer
+	if err := (&printer.Config{Mode: printer.RawFormat}).Fprint(&buf, fset, &cp); err != nil {
+		return []string{"<print error: " + err.Error() + ">"}
+	}
+	var out []string
+	for _, l := range strings.Split(buf.String(), "\n") {
+		if t := strings.Join(strings.Fields(l), " "); t != "" {
+			out = append(out, t)
+		}
+	}
+	return out
+}
+
+// pkgFacts: package-level variables, imports and function names of every non-test .go file of a directory
+func pkgFacts(dir string) (vars, imports, funcs []string, err error) {
+	fis, err := ioutil.ReadDir(dir)
+	if err != nil {
+		return nil, nil, nil, err
+	}
+	for _, fi := range fis {
+		n := fi.Name()
+		if !strings.HasSuffix(n, ".go") || strings.HasSuffix(n, "_test.go") || strings.HasPrefix(n, "zz_verif") {
+			continue
+		}
+		_, f, perr := ex.Parse(filepath.Join(dir, n))
+		if perr != nil {
+			return nil, nil, nil, perr
+		}
+		for _, im := range f.Imports {
+			imports = append(imports, strings.Trim(im.Path.Value, "\""))
+		}
+		for _, d := range f.Decls {
+			switch x := d.(type) {
+			case *ast.GenDecl:
+				if x.Tok == token.VAR {
+					for _, sp := range x.Specs {
+						for _, id := range sp.(*ast.ValueSpec).Names {
+							vars = append(vars, id.Name)
+						}
+					}
+				}
+			case *ast.FuncDecl:
+				name := x.Name.Name
+				if x.Recv != nil && len(x.Recv.List) > 0 {
+					t := x.Recv.List[0].Type
+					if st, ok := t.(*ast.StarExpr); ok {
+						t = st.X
+					}
+					if id, ok := t.(*ast.Ident); ok {
+						name = id.Name + "." + name
+					}
+				}
+				funcs = append(funcs, name)
+			}
+		}
+	}
+	sort.Strings(vars)
+	sort.Strings(imports)
+	sort.Strings(funcs)
+	return
+}
 
 func init() { ex.Register(&ex.Extractor{Name: "BlsFacts", Run: runBls}) }
 
@@ -41,11 +116,11 @@ func litArgs(fd *ast.FuncDecl, name string) [][]string {
 }
 
 func runBls(repo string) (string, error) {
-	_, bf, err := ex.Parse(filepath.Join(repo, "sign", "bls", "bls.go"))
+	bfs, bf, err := ex.Parse(filepath.Join(repo, "sign", "bls", "bls.go"))
 	if err != nil {
 		return "", err
 	}
-	_, pf, err := ex.Parse(filepath.Join(repo, "group", "bn256", "point.go"))
+	pfs, pf, err := ex.Parse(filepath.Join(repo, "group", "bn256", "point.go"))
 	if err != nil {
 		return "", err
 	}
@@ -84,6 +159,78 @@ func runBls(repo string) (string, error) {
 		return true
 	})
 	fmt.Fprintf(&b, "def PairingCheck_skipsIdentityPairs : Bool := %s\n", leanBool(skip))
+	// ---- the exact source text the hand model Model/Bls.lean (+ BlsHist: tbls.Verify) transcribes ----
+	src := func(name string, fset *token.FileSet, fd *ast.FuncDecl) error {
+		if fd == nil {
+			return fmt.Errorf("%s not found", name)
+		}
+		fmt.Fprintf(&b, "def %s_src : List String := %s\n", name, leanList(srcLines(fset, fd)))
+		return nil
+	}
+	for _, fn := range []string{"hashToPoint", "Verify", "Sign"} {
+		if err := src("bls_"+fn, bfs, ex.FuncDecl(bf, "", fn)); err != nil {
+			return "", err
+		}
+	}
+	if err := src("pointGT_PairingCheck", pfs, pc); err != nil {
+		return "", err
+	}
+	for _, m := range []struct{ recv, fn string }{{"pointG1", "Mul"}, {"pointG1", "Neg"}, {"pointG1", "Base"}, {"pointG2", "Base"}, {"pointG2", "Mul"}} {
+		if err := src(m.recv+"_"+m.fn, pfs, ex.FuncDecl(pf, m.recv, m.fn)); err != nil {
+			return "", err
+		}
+	}
+	sfs, sf, err := ex.Parse(filepath.Join(repo, "group", "bn256", "suite.go"))
+	if err != nil {
+		return "", err
+	}
+	for _, fn := range []string{"G1", "G2", "GT", "PairingCheck"} {
+		if err := src("Suite_"+fn, sfs, ex.FuncDecl(sf, "Suite", fn)); err != nil {
+			return "", err
+		}
+	}
+	if err := src("NewSuite", sfs, ex.FuncDecl(sf, "", "NewSuite")); err != nil {
+		return "", err
+	}
+	gfs, gf, err := ex.Parse(filepath.Join(repo, "group", "bn256", "group.go"))
+	if err != nil {
+		return "", err
+	}
+	for _, m := range []struct{ recv, fn string }{{"groupG1", "Point"}, {"groupG2", "Point"}, {"common", "Scalar"}} {
+		if err := src(m.recv+"_"+m.fn, gfs, ex.FuncDecl(gf, m.recv, m.fn)); err != nil {
+			return "", err
+		}
+	}
+	tfs, tf, err := ex.Parse(filepath.Join(repo, "sign", "tbls", "tbls.go"))
+	if err != nil {
+		return "", err
+	}
+	if err := src("tbls_Verify", tfs, ex.FuncDecl(tf, "", "Verify")); err != nil {
+		return "", err
+	}
+	if err := src("SigShare_Index", tfs, ex.FuncDecl(tf, "SigShare", "Index")); err != nil {
+		return "", err
+	}
+	if err := src("SigShare_Value", tfs, ex.FuncDecl(tf, "SigShare", "Value")); err != nil {
+		return "", err
+	}
+	shfs, shf, err := ex.Parse(filepath.Join(repo, "share", "poly.go"))
+	if err != nil {
+		return "", err
+	}
+	if err := src("PubPoly_Eval", shfs, ex.FuncDecl(shf, "PubPoly", "Eval")); err != nil {
+		return "", err
+	}
+	// ---- no hidden state: the packages declare no package-level variable; their imports and functions ----
+	for _, pk := range []string{"bls", "tbls"} {
+		vars, imports, funcs, err := pkgFacts(filepath.Join(repo, "sign", pk))
+		if err != nil {
+			return "", err
+		}
+		fmt.Fprintf(&b, "def %s_package_vars : List String := %s\n", pk, leanList(vars))
+		fmt.Fprintf(&b, "def %s_imports : List String := %s\n", pk, leanList(imports))
+		fmt.Fprintf(&b, "def %s_funcs : List String := %s\n", pk, leanList(funcs))
+	}
 	b.WriteString("end Dos.Gen.Bls\n")
 	return b.String(), nil
 }
